@@ -136,6 +136,9 @@ func (env *specEnv) lvalue(x SExpr) []frameItem {
 			}
 			return items
 		}
+		if id, ok := x.Fn.(*SIdent); ok && id.Name == "deref" {
+			return e.locItems(env.derefLoc(x), src)
+		}
 		if id, ok := x.Fn.(*SIdent); ok && id.Name == "mapof" {
 			v := env.eval(x.Args[0])
 			mt, ok := v.GT.Underlying().(*types.Map)
